@@ -474,10 +474,26 @@ func run(r *Rng, tier string, n int) {
 		}
 	}
 	// PackBuffer into caller buffers of EVERY length: the same octets as Pack (or the same refusal), compressed
-	for i := 0; i < 6; i++ {
-		m, _ := GenMsg(r, pool, []uint16{dns.TypeNS, dns.TypeCNAME, dns.TypeMX, dns.TypeA, dns.TypePTR}, 1, 1+r.Intn(3), r.Intn(2), 0, true, false)
-		for _, rr := range m.Answer {
-			setNames(rr, m.Question[0].Name)
+	for i := 0; i < 8; i++ {
+		qn := pool.Name()
+		m := new(dns.Msg)
+		m.Compress = true
+		m.SetQuestion(qn, dns.TypeNS)
+		h := func(t uint16) dns.RR_Header { return dns.RR_Header{Name: qn, Rrtype: t, Class: 1, Ttl: 60} }
+		m.Answer = []dns.RR{&dns.CNAME{Hdr: h(dns.TypeCNAME), Target: "alias." + qn}, &dns.A{Hdr: h(dns.TypeA), A: []byte{192, 0, 2, 1}}}
+		// the message ENDS in a name that is written as a pointer
+		switch i % 4 {
+		case 0:
+			m.Ns = []dns.RR{&dns.NS{Hdr: h(dns.TypeNS), Ns: "ns1." + qn}, &dns.NS{Hdr: h(dns.TypeNS), Ns: qn}}
+		case 1:
+			m.Answer = append(m.Answer, &dns.MX{Hdr: h(dns.TypeMX), Preference: 10, Mx: qn})
+		case 2:
+			m.Extra = []dns.RR{&dns.PTR{Hdr: h(dns.TypePTR), Ptr: "alias." + qn}}
+		case 3:
+			m.Ns = []dns.RR{&dns.SOA{Hdr: h(dns.TypeSOA), Ns: qn, Mbox: "hostmaster." + qn, Serial: 1}}
+		}
+		if _, ok := dns.IsDomainName("hostmaster." + qn); !ok {
+			continue
 		}
 		want, err := m.Copy().Pack()
 		if err != nil {
